@@ -151,7 +151,7 @@ func c12(r *Run) {
 
 	errMappingRules(r, "C12.R2")
 	// after the peer closed the buffered bytes stay readable: the closed answers are given only when the bytes are not there
-	r.borrow([]string{"C07.R5:closed-only-when-short"}, "C07.R5", "C12.R2", func() { c07(r) })
+	r.borrow([]string{"C07.R5:closed-only-when-short", "C07.R5:expired-deadline-does-not-hide-close"}, "C07.R5", "C12.R2", func() { c07(r) })
 	// a call parked when the connection closes is released (never blocks): the close wake-ups
 	closeWakeRules(r, "C12.R2")
 	// a recycled buffer reports length 0 (so every later sized read goes to the closed-state answer instead of
@@ -257,6 +257,13 @@ func c12(r *Run) {
 
 	// a Flush that is past its activity test still uses the slot and the buffers: the finalizer waits for it before it frees them
 	r.borrow([]string{"C05.R8:stop-flushing-first"}, "C05.R8", "C12.R3", func() { c05(r) })
+
+	// "never block": the pieces whose loss makes a call on a closed connection hang instead of returning - the reused timers
+	// are settled without a blocking drain (C07.R4), the flushing lock is given back on every exit (C08.R1: the finalizer
+	// waits for it), the poller gives the slot token back on every path (C10.R1: Close waits for it in Free)
+	r.borrow([]string{"C07.R4:timer-settled", "C07.R4:timer-armed-before-wait", "C07.R4:no-double-drain", "C07.R4:drain-after-failed-stop"}, "C07.R4", "C12.R6", func() { c07(r) })
+	r.borrow([]string{"C08.R1:lock-released", "C08.R4:timer-settled", "C08.R4:timer-armed-before-wait"}, "C08.R", "C12.R6.w", func() { c08(r) })
+	r.borrow([]string{"C10.R1:token-released"}, "C10.R1", "C12.R6", func() { c10(r) })
 
 	// ---- R3 enumerated panic sources ---------------------------------------------------------------
 	nilGuardsFor(r, "C12.R3")
